@@ -239,8 +239,9 @@ where
     /// Keys will be returned chronologically without duplicates.
     fn keys(self) -> ResultIter<<Vec<ResultItem<'store, DataKey>> as IntoIterator>::IntoIter> {
         let mut keys: Vec<_> = self.map(|data| data.key()).collect();
-        keys.sort_unstable();
-        keys.dedup();
+        //items of different sets may carry the same handle: compare by (set, handle)
+        keys.sort_unstable_by_key(|x| x.fullhandle());
+        keys.dedup_by_key(|x| x.fullhandle());
         ResultIter::new_sorted(keys.into_iter())
     }
 
